@@ -20532,3 +20532,157 @@ pub mod verif_hooks_monupd {
 		}
 	}
 }
+
+/// Verification hooks (feature `_verif_hooks` only); see `ln::verif_hooks`.
+#[cfg(feature = "_verif_hooks")]
+pub mod verif_hooks_c01 {
+	use super::*;
+
+	/// One pending HTLC: `(htlc_id, amount_msat, cltv_expiry, payment_hash, state)`.
+	///
+	/// Inbound states: 0 `RemoteAnnounced`, 1 `AwaitingRemoteRevokeToAnnounce`,
+	/// 2 `AwaitingAnnouncedRemoteRevoke`, 3 `Committed`, 4 `LocalRemoved(Fail*)`,
+	/// 5 `LocalRemoved(Fulfill)`.
+	///
+	/// Outbound states: 0 `LocalAnnounced`, 1 `Committed`, then `2 + 2 * k + s` for
+	/// `k` in `RemoteRemoved`, `AwaitingRemoteRevokeToRemove`, `AwaitingRemovedRemoteRevoke` and
+	/// `s` = 1 iff the outcome is `Success`.
+	pub type HtlcDump = (u64, u64, u32, [u8; 32], u8);
+
+	/// Read-only dump of the update-protocol state of a [`FundedChannel`].
+	#[derive(Clone, Debug, PartialEq, Eq)]
+	pub struct ChanDump {
+		pub is_outbound: bool,
+		pub channel_value_satoshis: u64,
+		pub value_to_self_msat: u64,
+		pub feerate_per_kw: u32,
+		/// `(feerate, state)`, state: 0 `RemoteAnnounced`, 1 `AwaitingRemoteRevokeToAnnounce`,
+		/// 2 `Outbound`
+		pub pending_update_fee: Option<(u32, u8)>,
+		pub holding_cell_update_fee: Option<u32>,
+		pub inbound: Vec<HtlcDump>,
+		pub outbound: Vec<HtlcDump>,
+		/// `(kind, amount_msat or htlc_id)`, kind: 0 add, 1 claim, 2 fail, 3 fail-malformed
+		pub holding_cell: Vec<(u8, u64)>,
+		pub next_holder_htlc_id: u64,
+		pub next_counterparty_htlc_id: u64,
+		pub holder_next_commitment_number: u64,
+		pub counterparty_next_commitment_number: u64,
+		pub channel_ready: bool,
+		pub awaiting_remote_revoke: bool,
+		pub peer_disconnected: bool,
+		pub monitor_update_in_progress: bool,
+		pub local_shutdown_sent: bool,
+		pub remote_shutdown_sent: bool,
+		pub resend_raa_first: bool,
+		pub holder_dust_limit_satoshis: u64,
+		pub counterparty_dust_limit_satoshis: u64,
+		pub holder_selected_channel_reserve_satoshis: u64,
+		pub counterparty_selected_channel_reserve_satoshis: Option<u64>,
+		pub holder_htlc_minimum_msat: u64,
+		pub counterparty_htlc_minimum_msat: u64,
+		pub holder_max_htlc_value_in_flight_msat: u64,
+		pub counterparty_max_htlc_value_in_flight_msat: u64,
+		pub holder_max_accepted_htlcs: u16,
+		pub counterparty_max_accepted_htlcs: u16,
+	}
+
+	impl<SP: SignerProvider> FundedChannel<SP> {
+		/// Read-only dump of the fields the update protocol depends on.
+		pub fn verif_chan_dump(&self) -> ChanDump {
+			let ctx = &self.context;
+			let ready = matches!(ctx.channel_state, ChannelState::ChannelReady(_));
+			let outcome = |o: &OutboundHTLCOutcome| match o {
+				OutboundHTLCOutcome::Success { .. } => 1u8,
+				OutboundHTLCOutcome::Failure(_) => 0u8,
+			};
+			ChanDump {
+				is_outbound: self.funding.is_outbound(),
+				channel_value_satoshis: self.funding.get_value_satoshis(),
+				value_to_self_msat: self.funding.value_to_self_msat,
+				feerate_per_kw: ctx.feerate_per_kw,
+				pending_update_fee: ctx.pending_update_fee.map(|(f, s)| {
+					(
+						f,
+						match s {
+							FeeUpdateState::RemoteAnnounced => 0,
+							FeeUpdateState::AwaitingRemoteRevokeToAnnounce => 1,
+							FeeUpdateState::Outbound => 2,
+						},
+					)
+				}),
+				holding_cell_update_fee: ctx.holding_cell_update_fee,
+				inbound: ctx
+					.pending_inbound_htlcs
+					.iter()
+					.map(|h| {
+						let s = match &h.state {
+							InboundHTLCState::RemoteAnnounced(_) => 0,
+							InboundHTLCState::AwaitingRemoteRevokeToAnnounce(_) => 1,
+							InboundHTLCState::AwaitingAnnouncedRemoteRevoke(_) => 2,
+							InboundHTLCState::Committed { .. } => 3,
+							InboundHTLCState::LocalRemoved(InboundHTLCRemovalReason::Fulfill {
+								..
+							}) => 5,
+							InboundHTLCState::LocalRemoved(_) => 4,
+						};
+						(h.htlc_id, h.amount_msat, h.cltv_expiry, h.payment_hash.0, s)
+					})
+					.collect(),
+				outbound: ctx
+					.pending_outbound_htlcs
+					.iter()
+					.map(|h| {
+						let s = match &h.state {
+							OutboundHTLCState::LocalAnnounced(_) => 0,
+							OutboundHTLCState::Committed => 1,
+							OutboundHTLCState::RemoteRemoved(o) => 2 + outcome(o),
+							OutboundHTLCState::AwaitingRemoteRevokeToRemove(o) => 4 + outcome(o),
+							OutboundHTLCState::AwaitingRemovedRemoteRevoke(o) => 6 + outcome(o),
+						};
+						(h.htlc_id, h.amount_msat, h.cltv_expiry, h.payment_hash.0, s)
+					})
+					.collect(),
+				holding_cell: ctx
+					.holding_cell_htlc_updates
+					.iter()
+					.map(|u| match u {
+						HTLCUpdateAwaitingACK::AddHTLC { amount_msat, .. } => (0, *amount_msat),
+						HTLCUpdateAwaitingACK::ClaimHTLC { htlc_id, .. } => (1, *htlc_id),
+						HTLCUpdateAwaitingACK::FailHTLC { htlc_id, .. } => (2, *htlc_id),
+						HTLCUpdateAwaitingACK::FailMalformedHTLC { htlc_id, .. } => (3, *htlc_id),
+					})
+					.collect(),
+				next_holder_htlc_id: ctx.next_holder_htlc_id,
+				next_counterparty_htlc_id: ctx.next_counterparty_htlc_id,
+				holder_next_commitment_number: self
+					.holder_commitment_point
+					.next_transaction_number(),
+				counterparty_next_commitment_number: ctx
+					.counterparty_next_commitment_transaction_number,
+				channel_ready: ready,
+				awaiting_remote_revoke: ready && ctx.channel_state.is_awaiting_remote_revoke(),
+				peer_disconnected: ctx.channel_state.is_peer_disconnected(),
+				monitor_update_in_progress: ctx.channel_state.is_monitor_update_in_progress(),
+				local_shutdown_sent: ctx.channel_state.is_local_shutdown_sent(),
+				remote_shutdown_sent: ctx.channel_state.is_remote_shutdown_sent(),
+				resend_raa_first: ctx.resend_order == RAACommitmentOrder::RevokeAndACKFirst,
+				holder_dust_limit_satoshis: ctx.holder_dust_limit_satoshis,
+				counterparty_dust_limit_satoshis: ctx.counterparty_dust_limit_satoshis,
+				holder_selected_channel_reserve_satoshis: self
+					.funding
+					.holder_selected_channel_reserve_satoshis,
+				counterparty_selected_channel_reserve_satoshis: self
+					.funding
+					.counterparty_selected_channel_reserve_satoshis,
+				holder_htlc_minimum_msat: ctx.holder_htlc_minimum_msat,
+				counterparty_htlc_minimum_msat: ctx.counterparty_htlc_minimum_msat,
+				holder_max_htlc_value_in_flight_msat: ctx.holder_max_htlc_value_in_flight_msat,
+				counterparty_max_htlc_value_in_flight_msat: ctx
+					.counterparty_max_htlc_value_in_flight_msat,
+				holder_max_accepted_htlcs: ctx.holder_max_accepted_htlcs,
+				counterparty_max_accepted_htlcs: ctx.counterparty_max_accepted_htlcs,
+			}
+		}
+	}
+}
